@@ -148,6 +148,7 @@ _NUM_TYPES = ("u8", "u16", "u32", "u64", "u128", "usize", "i8", "i16", "i32", "i
 _NUM_FROM = re.compile(r"(u8|u16|u32|u64|u128|usize|i8|i16|i32|i64|i128|isize|f32|f64)::from")
 
 
+_BOOL_LOCAL_RX = re.compile(r"!?var\d+")
 _WIDENING = set()   # cast expressions known to be unsigned widenings (value-preserving, commute with /c %c &c >>c)
 _UW = {"u8": 8, "u16": 16, "u32": 32, "u64": 64, "usize": 64, "u128": 128}
 
@@ -1835,8 +1836,15 @@ class FactsAnalysis:
                 keep.append(a)
             alts = set(keep)
         if len(alts) > self.MAX_ALTS:
-            inter = frozenset.intersection(*alts)
-            alts = {inter}
+            # widening: keep one alternative per valuation of the tracked boolean locals (the flag a `matches!` or an
+            # `&&` was lowered to stays correlated with what was established where it was set), intersect inside
+            groups = defaultdict(list)
+            for a in alts:
+                groups[frozenset(l for l in a if _BOOL_LOCAL_RX.fullmatch(l))].append(a)
+            if 1 < len(groups) <= self.MAX_ALTS:
+                alts = {frozenset.intersection(*g) for g in groups.values()}
+            else:
+                alts = {frozenset.intersection(*alts)}
         return alts
 
     def _solve(self):
